@@ -351,9 +351,14 @@ def variant_reject_edges(body, eq_call):
     for a in eq_call.args:
         if a['k'] not in ('copy', 'move'): continue
         l, proj = origin(body, a['pl'])
-        if not (proj and isinstance(proj[0], dict) and 'dc' in proj[0]): continue
+        dcs = [i for i, p in enumerate(proj) if isinstance(p, dict) and 'dc' in p]
+        if not dcs: continue
+        key = lambda ps: [(p.get('dc') or p.get('f')) for p in ps if isinstance(p, dict)]
+        prefix = key(proj[:dcs[-1]])            # the value whose variant is tested: everything before the last `as V`
         for bi, st in body.stmts():
-            if st['rv']['k'] != 'discr' or st['dst']['p'] or origin(body, st['rv']['pl']) != (l, []): continue
+            if st['rv']['k'] != 'discr' or st['dst']['p']: continue
+            l2, p2 = origin(body, st['rv']['pl'])
+            if l2 != l or key(p2) != prefix: continue
             for kind, sb, sw in body.uses.get(st['dst']['l'], ()):
                 if kind != 'switch': continue
                 for t in {x[1] for x in sw['ts']} | {sw['else']}:
@@ -361,7 +366,7 @@ def variant_reject_edges(body, eq_call):
     return out
 
 
-def only_fails_by(ctx, rule, body, calls, guards, what):
+def only_fails_by(ctx, rule, body, calls, guards, what, cut=()):
     """T-ERRFLOW, the converse of `propagates`: the function has no OTHER cause of failure than the given fallible calls
     and the rejecting side of the given guards.  Taking every such call to succeed and not taking the rejecting edges, no
     Err exit is reachable (checks added after decoding -- re-encoded length, "canonical" form, non-empty -- are reported)."""
@@ -370,7 +375,7 @@ def only_fails_by(ctx, rule, body, calls, guards, what):
     for c in calls:
         fam = ty_family(body.locals[c.dst['l']]) if not c.dst['p'] else None
         if fam: assume[c.bb] = fam[0]
-    cut = {e for sb in guards for e in GUARD_EDGES.get((body.name, sb), ())}
+    cut = set(cut) | {e for sb in guards for e in GUARD_EDGES.get((body.name, sb), ())}
     out = fl.outcomes([0], assume=assume, cut=cut)
     ctx.counters['cfg_paths'] += 1
     ctx.check('err' not in out, rule, 'T-ERRFLOW', body.name, 'the function can fail although %s' % what, body.site(), outcomes=sorted(out))
@@ -428,10 +433,14 @@ def mentions(ty, name):
     return re.search(r'(?<![\w:])%s(?![\w])' % re.escape(name), ty or '') is not None
 
 
-def landing_types(body, local, param, depth=14):
+STORES_INTO = ('push', 'push_back', 'push_front', 'insert', 'extend', 'append')      # collection.m(value): the value is in the collection afterwards
+
+
+def landing_types(body, local, param, depth=24):
     """types of the first locals NOT mentioning the type parameter `param` that the value of `local`
-    is moved into (plain moves, tuples/Ok(..) built from it, `?`): where a generic helper's result
-    lands in its (inlined) caller the parameter is instantiated."""
+    is moved into (plain moves, tuples/Ok(..) built from it, `?`, pushed into a collection that is then moved
+    on): where a generic helper's result lands in its (inlined) caller the parameter is instantiated
+    (by the caller's turbofish or by inference from its return type -- the type of that local shows either)."""
     out = []; seen = {local}; work = [(local, 0)]
     while work:
         l, d = work.pop()
@@ -443,9 +452,12 @@ def landing_types(body, local, param, depth=14):
                 if any(isinstance(p, dict) and p.get('dc') in ERRV for o in x['rv']['ops'] if o['k'] in ('copy', 'move') and o['pl']['l'] == l for p in o['pl']['p']): continue
                 nl = x['dst']['l']
             elif kind == 'call' and T.TRY_BRANCH.search(x.name) and not x.dst['p']: nl = x.dst['l']
+            elif kind == 'call' and x.item in STORES_INTO and len(x.args) >= 2 and x.args[0]['k'] in ('copy', 'move') and x.arg_local(0) != l:
+                # out.push((desc, message)): the value goes into the collection behind the `&mut` receiver
+                nl = origin(body, x.args[0]['pl'])[0]
             if nl is None or nl in seen: continue
             seen.add(nl)
-            if mentions(body.locals[nl], param): work.append((nl, d + 1))
+            if mentions(body.locals[nl], param) or '?' in body.locals[nl]: work.append((nl, d + 1))       # '?': a temporary of the normal form, type not recorded
             else: out.append(body.locals[nl])
     return out
 
@@ -465,7 +477,7 @@ def message_type_is(body, call, msg, value_local=None):
 
 
 # another view / an unchanged copy of the receiver: v.as_slice() ≡ &v[..] ≡ &*v ≡ v.as_ref() ≡ v.borrow(); s.as_str() ≡ &s[..]; x.clone() ≡ x.to_owned() ≡ v.to_vec()
-VIEW_OF = re.compile(r'::(as_ref|as_mut|deref|deref_mut|borrow|borrow_mut|as_slice|as_mut_slice|as_str|as_mut_str|as_bytes|clone|to_owned|to_vec|into_vec|into_boxed_slice|into|from)$|'
+VIEW_OF = re.compile(r'::(as_ref|as_mut|deref|deref_mut|borrow|borrow_mut|as_slice|as_mut_slice|as_str|as_mut_str|as_bytes|clone|to_owned|to_vec|into_vec|into_boxed_slice|into|from|into_inner)$|'
                      r'as std::ops::Index(Mut)?<std::ops::RangeFull>>::index(_mut)?$')          # only the full range: &v[1..] is another value
 
 
@@ -672,6 +684,24 @@ def taken_by_position(body, operand, lo):
     return not proj and len(cdefs) == 2 and all(is_step(d) for d in cdefs)
 
 
+def digest_lookup(ctx, body, lo):
+    """the loop `lo` (over all layers) looks a layer up by the digest parameter: an eq/ne test in it between the digest of
+    the loop's item (table DIGEST_OF) and parameter 2, whose hit side can succeed within the iteration and whose miss side
+    cannot (it goes on with the next layer).  Returns the test call or None."""
+    fl = flow(body); headers = set(body.loops()); nxt = lo[0]
+    for c in eq_tests(body):
+        if c.bb not in lo[4]: continue
+        sides = [(T.expr(body, a), a) for a in c.args]
+        item_digest = any(T.expr_has_call(e, name_re=DIGEST_OF) and nxt in ctx.S.slice_operand(body, a).call_objs for e, a in sides)
+        given = any(any(x[0] == 'place' and x[1] == 2 for x in T.expr_walk(e)) for e, a in sides)
+        if not (item_digest and given): continue
+        for sb, neg in T.bool_flow(body, c.dst['l']):
+            t, f = T.switch_sides(body, sb, neg)
+            yes, no = (t, f) if c.item == 'eq' else (f, t)
+            if fl.may_succeed([yes], stop=headers) and not fl.may_succeed([no], stop=headers): return c
+    return None
+
+
 def over_all_layers(ctx, body, lo):
     """the loop iterates over the result of `OciArtifact::get_layers` (all (descriptor, blob) pairs in manifest order)"""
     return any(x.item == 'get_layers' and 'OciArtifact' in x.name for x in ctx.S.slice_operand(body, lo[0].args[0]).call_objs)
@@ -715,15 +745,37 @@ def kinds_rules(ctx):
             okl = okl and not fl.may_succeed([0], stop={c.bb for c in al})
             ctx.check(okl, R + '/%s/add/layer' % kind, 'T-SIBLING', b.name, 'add_layer is not called exactly once with (media_types::%s(), encoded blob, given annotations) on every success path' % mt, b.site())
             propagates(ctx, R + '/%s/add/error' % kind, b, al, 'add_layer')
+            # the annotations stored with the layer are the caller's, as given: the map handed to add_layer is parameter 3 through
+            # moves / into() / into_inner() / clone only, and nothing on that way inserts, removes or "corrects" an entry
+            # (set_*(..) on it, entry(), retain, a &mut borrow of it or of the map inside)
+            ann_ok = bool(al); ann_why = []
+            for c in al:
+                trail = []
+                root = origin(b, c.args[3]['pl'], trail=trail)[0] if c.args[3]['k'] in ('copy', 'move') else None
+                held = set(trail)
+                for l in list(held): held |= T.copies_of(b, l)
+                ann_why += [w for _, w in mutations_of(b, {l for l in held if not b.locals[l].startswith('&mut')} | {3})]
+                if root != 3: ann_why.append('the map does not come from the parameter by moves and conversions only')
+            ctx.check(ann_ok and not ann_why, R + '/%s/add/annotations-unchanged' % kind, 'T-CARRY', b.name, 'the annotations are not stored as given: %s' % sorted(set(ann_why)), b.site())
         g = ctx.method(R + '/%s/get/anchor' % kind, ART, getf)
         if g is not None:
             gl = [c for c in g.calls if c.item == 'get_layer' and c.path.endswith('Artifact::<Base>::get_layer')]
             dec = [c for c in g.calls if c.item in DECODERS and (c.trait or '').endswith('prost::Message')]
             fd = [c for c in g.calls if c.item == 'from_descriptor' and ann in c.path]
+            # ... or get_layer written out in place (the helper inlined by hand): a loop over get_layers() with the digest test;
+            # its item (the `next` call) then stands for the lookup's result
+            fl = flow(g)
+            inplace = [lo for lo in T.for_loops(g) if over_all_layers(ctx, g, lo)]
+            listing = [c for c in g.calls if c.item == 'get_layers' and 'OciArtifact' in c.name] if inplace else []
             # the layer lookups whose result is decoded / whose descriptor gives the annotations
-            used = [l for l in gl if any(l in ctx.S.slice_operand(g, c.args[0]).call_objs for c in dec + fd)]
-            ctx.check(bool(used) and all(root_param(g, l.args[1]) == 2 for l in used), R + '/%s/get/by-digest' % kind, 'T-CARRY', g.name, 'layer is not looked up by the given digest', g.site())
-            propagates(ctx, R + '/%s/get/unknown-digest-error' % kind, g, gl, 'get_layer')
+            used = [l for l in gl + [lo[0] for lo in inplace] if any(l in ctx.S.slice_operand(g, c.args[0]).call_objs for c in dec + fd)]
+            used_loops = [lo for lo in inplace if lo[0] in used]
+            by_digest = bool(used) and all(root_param(g, l.args[1]) == 2 for l in used if l in gl) and all(digest_lookup(ctx, g, lo) is not None for lo in used_loops)
+            ctx.check(by_digest, R + '/%s/get/by-digest' % kind, 'T-CARRY', g.name, 'layer is not looked up by the given digest', g.site())
+            propagates(ctx, R + '/%s/get/unknown-digest-error' % kind, g, gl + listing, 'get_layer')
+            for lo in used_loops:
+                # in place: when the layers are exhausted without a hit the function fails (get_layer's trailing bail!)
+                ctx.check(fl.outcomes([lo[3]]) == {'err'}, R + '/%s/get/unknown-digest-error' % kind, 'T-ERRFLOW', g.name, 'an unknown digest does not end in an error', g.site(lo[0].bb))
             # media type guard: <descriptor of the looked-up layer>.media_type() == media_types::v1_K()
             okg = False; guard_sbs = []
             for c in eq_tests(g):
@@ -749,7 +801,8 @@ def kinds_rules(ctx):
             ctx.check(okd, R + '/%s/get/decodes-message' % kind, 'T-SIBLING', g.name, 'the blob of the layer is not decoded as %s' % msg, g.site())
             propagates(ctx, R + '/%s/get/decode-error' % kind, g, dec, 'decode')
             # reading succeeds whenever the layer exists, has the kind's media type and decodes: no further cause of failure
-            only_fails_by(ctx, R + '/%s/get/only-expected-errors' % kind, g, gl + dec, guard_sbs, 'the layer is found, has media type %s and decodes as %s' % (mt, msg))
+            not_found = {(x, lo[3]) for lo in used_loops for x in g.preds.get(lo[3], ())}          # in place: "no layer of this digest" is the lookup's failure
+            only_fails_by(ctx, R + '/%s/get/only-expected-errors' % kind, g, gl + listing + dec, guard_sbs, 'the layer is found, has media type %s and decodes as %s' % (mt, msg), cut=not_found)
             okf = any(any(l in ctx.S.slice_operand(g, c.args[0]).call_objs for l in used) and bool(pay) and all(c in ctx.S.slice_operand(g, p).call_objs for p in pay) for c in fd)
             ctx.check(okf, R + '/%s/get/annotations' % kind, 'T-SIBLING', g.name, 'annotations are not read from the layer\'s descriptor as %s' % ann, g.site())
     # list readers: every layer of the kind's media type, decoded, with its own descriptor, in order
@@ -796,7 +849,18 @@ def kinds_rules(ctx):
             for lo_i, sink in chain:
                 start = okg[1] if (okg and okg[0] is lo_i) else lo_i[2]
                 kept = kept and T.must_pass(g, start, {lo_i[1]}, {sink.bb})
-            ctx.check(kept, R + '/%s/every-match-kept' % fn, 'T-LOOPMUST', g.name, 'a matching / decoded layer can be dropped', g.site())
+            # ... and every stage looks at ALL its items: the loop is left only when it is exhausted or with an error
+            # (`break` at the first layer of another type, an early `return Ok(out)`, take(n) lose the layers behind)
+            early = []
+            fl = flow(g)
+            for lo_i, sink in chain:
+                for x in lo_i[4]:
+                    for y in g.succ(x):
+                        if y in lo_i[4] or g.blocks[y]['cleanup'] or y == lo_i[3]: continue
+                        if fl.outcomes([y]) - {'err'}: early.append((x, y))
+                si = ctx.S.slice_operand(g, lo_i[0].args[0])
+                early += [(c.bb, c.item) for c in si.call_objs if c.item in RESTRICTING and 'Iterator' in (c.trait or '')]
+            ctx.check(kept and not early, R + '/%s/every-match-kept' % fn, 'T-LOOPMUST', g.name, 'a matching / decoded layer can be dropped' if not kept else 'the iteration over the layers can end before the last layer (%s)' % early[:3], g.site())
             # descriptor and blob of one entry are the two halves of the same layer (not looked up again by digest:
             # two layers may have the same digest and different annotations)
             ok_same = bool(pushes) and d.args[0]['k'] in ('copy', 'move') and origin(g, d.args[0]['pl'])[0] == item
@@ -936,12 +1000,13 @@ def types_rules(ctx, repo):
     g = ctx.method(R + '/get_manifest/anchor', ART, 'get_manifest')
     if g is not None:
         at = [c for c in g.calls if c.item == 'artifact_type' and 'ImageManifest' in c.name]
-        okg = False; whole = False
+        okg = False; whole = False; guard_sbs = []
         for c in eq_tests(g):
             mts = [m for a in c.args for m in media_kinds(ctx, g, a)]
             from_manifest = any(x in ctx.S.slice_operand(g, a).call_objs for a in c.args for x in at)
-            if mts == ['v1_artifact'] and from_manifest and guard_holds(g, c, c.item == 'eq') is not None:
-                okg = True
+            sb = guard_holds(g, c, c.item == 'eq') if (mts == ['v1_artifact'] and from_manifest) else None
+            if sb is not None:
+                okg = True; guard_sbs.append(sb)
                 # `manifest.artifact_type() == &Some(v1_artifact())`: the comparison itself rejects a missing type
                 if any(T.strip_wrappers(T.expr(g, a))[0] == 'agg' and T.strip_wrappers(T.expr(g, a))[1].endswith('Option::Some') for a in c.args): whole = True
         # a missing artifactType is an error: as_ref().context(..)? ≡ match { None => bail!, .. } ≡ let Some(ty) = .. else { bail! } ≡ ok_or_else(..)?
@@ -952,6 +1017,10 @@ def types_rules(ctx, repo):
         else:
             ctx.bad(R + '/get_manifest/missing-type-is-error', 'T-ERRFLOW', g.name, 'the artifact type of the manifest is not read', g.site())
         ctx.check(okg, R + '/get_manifest/type-guard', 'T-GUARD', g.name, 'a manifest whose artifact type is not v1_artifact() is accepted', g.site())
+        # the manifest of a genuine OMMX artifact is always returned: once the image's manifest is read, its artifact type is
+        # present and is v1_artifact(), nothing else can fail (e.g. a fallible call needed only for the text of an error message)
+        reads = [c for c in g.calls if c.item == 'get_manifest' and not c.path.startswith('artifact::')]       # ocipkg's Image::get_manifest of the underlying image
+        only_fails_by(ctx, R + '/get_manifest/only-expected-errors', g, reads + at, guard_sbs, 'the manifest is read and its artifact type is v1_artifact()')
     gl = ctx.method('C20.digest/get_layer/anchor', ART, 'get_layer')
     if gl is not None:
         fl = flow(gl)
@@ -960,22 +1029,10 @@ def types_rules(ctx, repo):
         # when the layers are exhausted without a hit, the function fails: trailing bail! ≡ find(..).with_context(..) ≡ .ok_or_else(..)? ≡ match { None => bail! }
         ok = bool(loops) and all(fl.outcomes([lo[3]]) == {'err'} for lo in loops)
         ctx.check(ok, 'C20.digest/unknown-is-error', 'T-ERRFLOW', gl.name, 'an unknown digest does not end in an error', gl.site())
-        cmp_ok = False
-        headers = set(gl.loops())
-        for c in eq_tests(gl):
-            lo = [x for x in loops if c.bb in x[4]]
-            if not lo: continue
-            nxt = lo[0][0]
-            sides = [(T.expr(gl, a), a) for a in c.args]
-            # <digest of the loop's item> == <the digest argument>
-            item_digest = any(T.expr_has_call(e, name_re=DIGEST_OF) and nxt in ctx.S.slice_operand(gl, a).call_objs for e, a in sides)
-            given = any(any(x[0] == 'place' and x[1] == 2 for x in T.expr_walk(e)) for e, a in sides)
-            if not (item_digest and given): continue
-            for sb, neg in T.bool_flow(gl, c.dst['l']):
-                t, f = T.switch_sides(gl, sb, neg)
-                yes, no = (t, f) if c.item == 'eq' else (f, t)
-                # a hit is returned, a layer with another digest never is
-                if fl.may_succeed([yes], stop=headers) and not fl.may_succeed([no], stop=headers): cmp_ok = True
+        cmp_ok = any(digest_lookup(ctx, gl, lo) is not None for lo in loops)
+        # a layer that is present is returned: nothing but listing the layers and "no layer of this digest" can fail
+        listing = [c for c in gl.calls if c.item == 'get_layers' and 'OciArtifact' in c.name]
+        only_fails_by(ctx, 'C20.digest/only-expected-errors', gl, listing, [], 'the layers are listed and one of them has the digest', cut={(x, lo[3]) for lo in loops for x in gl.preds.get(lo[3], ())})
         ctx.check(cmp_ok, 'C20.digest/compares-digest', 'T-GUARD', gl.name, 'layers are not selected by comparing their digest with the argument', gl.site())
         # what is returned is the matching layer itself: descriptor and blob of the item of that loop
         pay = returned_payloads(gl)
@@ -1247,4 +1304,4 @@ def check(ctx):
     finally:
         ctx.F, ctx.S = F0, S0
     # floors = rule instances decided on the pinned tree
-    ctx.floor('C20.kinds', 54); ctx.floor('C20.types', 18); ctx.floor('C20.digest', 3); ctx.floor('C20.annotations', 96)
+    ctx.floor('C20.kinds', 58); ctx.floor('C20.types', 19); ctx.floor('C20.digest', 4); ctx.floor('C20.annotations', 96)
